@@ -776,6 +776,9 @@ func propTable() map[string]*PropSpec {
 			c.RequireReach = []string{"C14.sync_during_commit"}
 			q = append(q, c)
 		}
+		sdp := rc("C14_SyncDuringProposal", ".", "C14_SyncDuringProposal", nil)
+		sdp.RequireReach = []string{"C14.sync_during_proposal"}
+		q = append(q, sdp)
 		// UpdateState while the worker's message queue is full (the worker is busy in a long SPI call)
 		fq14 := rc("C12_FullQueue", ".", "C12_FullQueue", nil)
 		fq14.MaxLoop = 1200
